@@ -26,5 +26,5 @@ def compare(lines):
     keep = [i for i, a in enumerate(py) if a.count("=") <= MAX_ATTRS]
     skipped_large += len(lines) - len(keep)
     mo = [canon.canon_readp_model(canon.canon_model_line(x)) for x in run_model([lines[i] for i in keep])]
-    diffs = [(lines[i], py[i], b) for i, b in zip(keep, mo) if py[i] != b]
+    diffs = [(lines[i], py[i], b) for i, b in zip(keep, mo) if py[i] != b and b != "model-timeout"]
     return len(keep), diffs, py
